@@ -306,4 +306,83 @@ def run(ctx, config):
     if not pb or not okz:
         r2.bad("K4:evhttp_header_is_valid_value:shape", "%s:%d" % (f.file, f.line), f.name, "the validator no longer rejects a CR/LF that is not followed by SP or HT")
     rules.append(r2)
+    rules.append(rule_format(P, fns))
     return rules
+
+
+def fmt_worst(fmt):
+    """worst-case number of bytes a printf format produces (without the NUL), or None when it has an unbounded conversion (%s, %*)"""
+    import re
+    n = 0
+    i = 0
+    while i < len(fmt):
+        c = fmt[i]
+        if c != "%":
+            n += 1
+            i += 1
+            continue
+        m = re.match(r"%([-+ #0]*)(\d*|\*)(?:\.(\d+|\*))?(hh|h|ll|l|z|j|t|L)?([diouxXcsp%])", fmt[i:])
+        if not m:
+            return None
+        flags, width, prec, lm, conv = m.groups()
+        if conv == "%":
+            w = 1
+        elif conv == "c":
+            w = 1
+        elif conv == "s" or width == "*" or prec == "*":
+            return None
+        else:
+            bits = 64 if lm in ("l", "ll", "z", "j", "t") else 32
+            if conv in ("d", "i"):
+                w = 20 if bits == 64 else 11
+            elif conv == "u":
+                w = 20 if bits == 64 else 10
+            elif conv in ("x", "X"):
+                w = (16 if bits == 64 else 8) + (2 if "#" in flags else 0)
+            elif conv == "o":
+                w = (22 if bits == 64 else 11) + (1 if "#" in flags else 0)
+            else:
+                w = 18
+        if width and width.isdigit():
+            w = max(w, int(width))
+        n += w
+        i += m.end()
+    return n
+
+
+def rule_format(P, fns):
+    """text the library formats into a fixed buffer and then puts on the wire (chunk sizes, Content-Length, ports) must fit in the worst case: a silently
+    truncated chunk-size line or length field changes the framing of the message the caller asked for"""
+    r = Rule("C26-format", "K4", "numbers formatted into fixed buffers with evutil_snprintf/snprintf fit in the worst case (or the result is checked)", floor=3)
+    for f in fns:
+        for el in f.calls():
+            n = callee_name(el.e)
+            if n not in ("evutil_snprintf", "snprintf", "__builtin___snprintf_chk"):
+                continue
+            a = el.e[2]
+            fi = 2 if n != "__builtin___snprintf_chk" else 4
+            if len(a) <= fi or not is_e(strip(a[fi]), "str"):
+                continue
+            fmt = strip(a[fi])[1]
+            dst = strip(a[0])
+            cap = strip(a[1])
+            capv = cap[1] if is_e(cap, "int") else None
+            worst = fmt_worst(fmt)
+            # is the result used (compared)?  look for a guard on the call's value / the variable it is assigned to
+            checked = False
+            blk = f.blocks[el.bid]
+            for nx in blk.elems[el.idx + 1:el.idx + 2]:
+                if nx.e[0] == "asg" and eq(strip(nx.e[3]), el.e):
+                    rv = strip(nx.e[2])
+                    checked = any(any(eq(strip(q), rv) for q in walk(b.term["cond"])) for b in f.branch_blocks())
+            if blk.term and "cond" in blk.term and any(eq(strip(q), el.e) for q in walk(blk.term["cond"])):
+                checked = True
+            r.inst((f.name, el.n), {"fn": f.name, "site": el.where(), "format": fmt, "capacity": capv, "worst_case_with_nul": (worst + 1) if worst is not None else None, "result_checked": checked},
+                   nontrivial=worst is not None)
+            if worst is None or capv is None or checked:
+                continue
+            if worst + 1 > capv:
+                r.bad("K4:%s:format-may-truncate:%s" % (f.name, show(dst)), el.where(), f.name,
+                      "format %r needs up to %d bytes with the terminator but %s has %d and the result is not checked: the text is silently cut (a chunk-size line without its CRLF, a shortened length)" % (
+                          fmt, worst + 1, show(dst), capv))
+    return r
